@@ -519,6 +519,79 @@ def write_baseline(P):
     return sum(len(v) for v in cur.values())
 
 
+# --------------------------------------------------------------------------------------------- V10
+
+def gating_params(P, tu, fname, memo={}):
+    """parameters of a function that switch its reject guards on: some guard holds only under `<param> != 0`"""
+    key = (tu, fname)
+    if key not in memo:
+        f = P.func(tu, fname)
+        pn = {p['name'] for p in f.params}
+        out = set()
+        if any(True for _ in f.calls('imb_set_errno')):
+            for g in guards.catalogue(f):
+                for c in g['ctx']:
+                    m = re.match(r'^(\w+) != 0$', c)
+                    if m and m.group(1) in pn:
+                        out.add(m.group(1))
+        memo[key] = out
+    return memo[key]
+
+
+def run_v10(chk, P):
+    """sibling rule: the functions bound to one handler slot of IMB_MGR by the nine variants are implementations of one entry point;
+    where they call a shared helper whose parameter checks are switched by a parameter, they all pass the same value for it"""
+    from .c14 import handler_assignments
+    r = chk.rule('V10', 'the variants\' implementations of one entry point (functions bound to the same IMB_MGR handler slot) pass the same '
+                        'value for every parameter that switches a shared helper\'s parameter checks on', floor=10)
+    slots = {}
+    for tu in P.variant_tus():
+        for fld, (sym, loc) in handler_assignments(P, tu).items():
+            slots.setdefault(fld, {})[tu.split('__')[0]] = sym
+    for fld, impls in sorted(slots.items()):
+        sigs = {}
+        for vt, sym in sorted(impls.items()):
+            found = P.find(sym)
+            if not found:
+                continue   # assembly routine
+            tu2, f = found[0]
+            sig = []
+            for _, _, ev in f.events(('call',)):
+                cal = ev['e'].get('fn')
+                if not cal or not P.has(tu2, cal):
+                    continue
+                gp = gating_params(P, tu2, cal)
+                if not gp:
+                    continue
+                g = P.func(tu2, cal)
+                for i, prm in enumerate(g.params):
+                    if prm['name'] in gp and i < len(ev['e'].get('a', [])):
+                        a = cf.strip_casts(ev['e']['a'][i])
+                        v = cf.evalc(a)
+                        sig.append((cal, prm['name'], v if v is not None else ('param' if a.get('p') else cf.render(a))))
+            if sig:
+                sigs[(vt, sym)] = (sorted(set(sig), key=str), f.loc)
+        if len(sigs) < 2:
+            continue
+        vals = {}
+        for (vt, sym), (sig, loc) in sigs.items():
+            for cal, prm, v in sig:
+                vals.setdefault((cal, prm), {}).setdefault(str(v), []).append((vt, sym, loc))
+        for (cal, prm), byv in sorted(vals.items()):
+            key = '%s:%s(%s)' % (fld, cal, prm)
+            if len(byv) == 1:
+                r.ok(key, {'value': list(byv)[0], 'variants': sum(len(x) for x in byv.values())})
+                continue
+            major = max(byv, key=lambda k_: len(byv[k_]))
+            for v, lst in sorted(byv.items()):
+                if v == major:
+                    continue
+                for vt, sym, loc in lst:
+                    r.bad('%s:%s' % (key, vt), loc,
+                          '%s (bound to state->%s by %s) calls %s with %s = %s; the other variants\' implementations pass %s: the parameter '
+                          'checks of this entry point are switched differently in this variant' % (sym, fld, vt, cal, prm, v, major))
+
+
 # --------------------------------------------------------------------------------------------- V7
 
 def run_v7(chk, P):
@@ -626,6 +699,7 @@ def run(chk):
     run_v7(chk, P)
     shared.rule_errno_target(chk, P, 'V8')
     run_v9(chk, P)
+    run_v10(chk, P)
 
 
 if __name__ == '__main__':
